@@ -8,6 +8,7 @@ C04 (any history, including overflow of the 32-entry input queue), the one-shot 
 the tap-hold fragment of C05/C01 (events arrive while fewer than 32 are pending).
 -/
 import KVerif.Props.C07
+import KVerif.Lemmas.KanataDynQuiet
 import KVerif.Lemmas.OneShotStep
 import KVerif.Lemmas.QuiesceTapHold
 namespace KVerif.C07
@@ -132,6 +133,7 @@ structure KRest (k : KState) : Prop where
   vk : k.vkeysPendingRelease = []
   mcd : k.macroOnPressCancelDuration = 0
   seqOff : k.seq.off = true      -- [seq] sequence mode off, `sequence-always-on` not configured
+  noRec : k.dyn.rcd = none       -- [dyn] no dynamic macro is being recorded
 
 /-- `k'` is `k` except for the output written, `prev_keys` and `last_pressed_key` -/
 def OutFrame (k k' : KState) : Prop :=
@@ -276,11 +278,12 @@ theorem tickStates_rest (k k' : KState) (hr : KRest k) (ht : tickStates k = .ok 
     rw [e3] at ht; simp only [] at ht
     rw [e3s] at ht; simp only [] at ht
     rw [e4] at ht; simp only [] at ht
+    simp only [dynTickRecord, hr.noRec] at ht
     rw [e5] at ht
     injection ht with ht
     subst ht
     refine ⟨rfl, rfl, hr.customs, hr.noOvr, hr.ovrClean, rfl, hr.unmod, hr.unshift, hr.caps, hr.scroll,
-      hr.hscroll, hr.moveV, hr.moveH, hr.wfi, hr.vk, ?_, hr.seqOff⟩
+      hr.hscroll, hr.moveV, hr.moveH, hr.wfi, hr.vk, ?_, hr.seqOff, hr.noRec⟩
     show k.macroOnPressCancelDuration - 1 = 0
     rw [hr.mcd]
 
@@ -305,20 +308,21 @@ theorem handleInput_rest (k k' : KState) (hr : KRest k) (i : Input) (h : handleI
   cases i with
   | press code =>
     unfold handleInputEvent at h
+    simp only [dynRecord_none _ _ _ (show ({ k with ticksSinceIdle := 0 } : KState).dyn.rcd = none from hr.noRec)] at h
     simp only [hr.mcd, gt_iff_lt, Nat.lt_irrefl, if_false] at h
     split at h
     · cases h
     · rename_i l he
       injection h with h; subst h
-      exact ⟨⟨hr.customs, hr.noOvr, hr.ovrClean, hr.cur, hr.unmod, hr.unshift, hr.caps, hr.scroll, hr.hscroll, hr.moveV, hr.moveH, hr.wfi, hr.vk, rfl, hr.seqOff⟩, rfl, he⟩
+      exact ⟨⟨hr.customs, hr.noOvr, hr.ovrClean, hr.cur, hr.unmod, hr.unshift, hr.caps, hr.scroll, hr.hscroll, hr.moveV, hr.moveH, hr.wfi, hr.vk, rfl, hr.seqOff, hr.noRec⟩, rfl, he⟩
   | release code =>
     unfold handleInputEvent at h
-    simp only [] at h
+    simp only [dynRecord_none _ _ _ (show ({ k with ticksSinceIdle := 0 } : KState).dyn.rcd = none from hr.noRec)] at h
     split at h
     · cases h
     · rename_i l he
       injection h with h; subst h
-      exact ⟨⟨hr.customs, hr.noOvr, hr.ovrClean, hr.cur, hr.unmod, hr.unshift, hr.caps, hr.scroll, hr.hscroll, hr.moveV, hr.moveH, hr.wfi, hr.vk, hr.mcd, hr.seqOff⟩, rfl, he⟩
+      exact ⟨⟨hr.customs, hr.noOvr, hr.ovrClean, hr.cur, hr.unmod, hr.unshift, hr.caps, hr.scroll, hr.hscroll, hr.moveV, hr.moveH, hr.wfi, hr.vk, hr.mcd, hr.seqOff, hr.noRec⟩, rfl, he⟩
   | tap code =>
     unfold handleInputEvent at h
     simp only [] at h
@@ -329,7 +333,7 @@ theorem handleInput_rest (k k' : KState) (hr : KRest k) (i : Input) (h : handleI
       · cases h
       · rename_i l he
         injection h with h; subst h
-        exact ⟨⟨hr.customs, hr.noOvr, hr.ovrClean, hr.cur, hr.unmod, hr.unshift, hr.caps, hr.scroll, hr.hscroll, hr.moveV, hr.moveH, hr.wfi, hr.vk, hr.mcd, hr.seqOff⟩, rfl, l1, he1, he⟩
+        exact ⟨⟨hr.customs, hr.noOvr, hr.ovrClean, hr.cur, hr.unmod, hr.unshift, hr.caps, hr.scroll, hr.hscroll, hr.moveV, hr.moveH, hr.wfi, hr.vk, hr.mcd, hr.seqOff, hr.noRec⟩, rfl, l1, he1, he⟩
   | rep code =>
     unfold handleInputEvent handleRepeat at h
     have hina : k.seq.st.active = false := off_inactive _ hr.seqOff
@@ -346,10 +350,10 @@ theorem handleInput_rest (k k' : KState) (hr : KRest k) (i : Input) (h : handleI
         rw [ho] at h
         subst h
         exact ⟨⟨hr.customs, hr.noOvr, hr.ovrClean, rfl, hr.unmod, hr.unshift, hr.caps, hr.scroll, hr.hscroll,
-          hr.moveV, hr.moveH, hr.wfi, hr.vk, hr.mcd, hr.seqOff⟩, rfl, rfl⟩
+          hr.moveV, hr.moveH, hr.wfi, hr.vk, hr.mcd, hr.seqOff, hr.noRec⟩, rfl, rfl⟩
       · subst h
         exact ⟨⟨hr.customs, hr.noOvr, hr.ovrClean, rfl, hr.unmod, hr.unshift, hr.caps, hr.scroll, hr.hscroll,
-          hr.moveV, hr.moveH, hr.wfi, hr.vk, hr.mcd, hr.seqOff⟩, rfl, rfl⟩
+          hr.moveV, hr.moveH, hr.wfi, hr.vk, hr.mcd, hr.seqOff, hr.noRec⟩, rfl, rfl⟩
 
 /-- the blocking decision only updates `ticks_since_idle` -/
 theorem canBlock_fields (k : KState) (ms : Nat) :
@@ -367,7 +371,7 @@ theorem canBlock_true (k : KState) (ms : Nat) (h : (canBlockUpdateIdleWaiting k 
     isIdle k = true ∧ (canBlockUpdateIdleWaiting k ms).1 = k := by
   unfold canBlockUpdateIdleWaiting at h ⊢
   simp only [Bool.and_eq_true, Bool.not_eq_true'] at h
-  obtain ⟨⟨h1, h2⟩, _⟩ := h
+  obtain ⟨⟨⟨h1, h2⟩, _⟩, _⟩ := h
   refine ⟨h1, ?_⟩
   simp only [h1, h2, Bool.not_true, Bool.false_eq_true, if_false]
 
@@ -418,13 +422,13 @@ theorem reach_inv {P : Layout → Prop} {g : Layout → Bool} (hP : LayoutInv P 
     rw [ht]
     exact ⟨⟨ih.rest.customs, ih.rest.noOvr, ih.rest.ovrClean, ih.rest.cur, ih.rest.unmod, ih.rest.unshift,
       ih.rest.caps, ih.rest.scroll, ih.rest.hscroll, ih.rest.moveV, ih.rest.moveH, ih.rest.wfi, ih.rest.vk,
-      ih.rest.mcd, ih.rest.seqOff⟩, ih.lay, ih.sync⟩
+      ih.rest.mcd, ih.rest.seqOff, ih.rest.noRec⟩, ih.lay, ih.sync⟩
 
 /-- **the hypotheses of `block_silent` hold whenever the invariant does and kanata is idle** -/
 theorem mayBlock_of_inv {P : Layout → Prop} {g : Layout → Bool} (hP : LayoutInv P g) {k : KState}
     (h : KInv P k) (hidle : isIdle k = true) : MayBlock k k.layout.keycodes k.overrideStates := by
   have hq := (idle_covers_time_driven k hidle).1
-  refine ⟨hidle, h.rest.wfi, hP.plain _ h.lay, h.rest.cur, ?_, h.rest.ovrClean, ?_⟩
+  refine ⟨hidle, h.rest.wfi, hP.plain _ h.lay, h.rest.cur, ?_, h.rest.ovrClean, ?_, h.rest.noRec⟩
   · rw [adjustKeys_rest k h.rest.unmod h.rest.unshift]
     exact overrideKeys_empty _ h.rest.noOvr _ _
   · rw [Synced, h.sync hq]
@@ -636,7 +640,7 @@ def freshK (cfg : LCfg) (tv2 dfl qth : Bool) (osd : Nat) (keyOutputs : List (Lis
 
 theorem freshK_start (cfg : LCfg) (tv2 dfl qth : Bool) (osd : Nat) (ko : List (List (Nat × List Nat)))
     (mods : ModCodes) : KStart (freshK cfg tv2 dfl qth osd ko mods) :=
-  ⟨⟨rfl, rfl, rfl, rfl, rfl, rfl, rfl, rfl, rfl, rfl, rfl, rfl, rfl, rfl, rfl⟩, rfl⟩
+  ⟨⟨rfl, rfl, rfl, rfl, rfl, rfl, rfl, rfl, rfl, rfl, rfl, rfl, rfl, rfl, rfl, rfl⟩, rfl⟩
 
 /-- generic: along every reachable state the hypotheses of `block_silent` hold when kanata is idle -/
 theorem mayBlock_reachable {P : Layout → Prop} {g : Layout → Bool} (hP : LayoutInv P g) {k0 k : KState}
